@@ -280,6 +280,47 @@ def m_concatenate(interp, arrays, axis=0, **k):
     return SArr.from_fn(fn, shape, np.result_type(*[a.dtype for a in arrs]))
 
 
+@model(np.append)
+def m_append(interp, arr, values, axis=None):
+    """np.append(arr, values): ravel both, concatenate; the result type is NumPy's promotion of the two
+    (a python int becomes int64 first: appending a python int to a uint64 array gives float64)"""
+    if not contains_sym((arr, values)):
+        return _native(np.append, arr, values, axis=axis)
+    if axis is not None:
+        raise Unsupported("np.append with an axis")
+    c = ctx()
+    a = arr if isinstance(arr, SArr) else m_asarray(interp, arr)
+    if a.ndim != 1:
+        raise Unsupported("np.append to a non 1-D symbolic array")
+    if isinstance(values, SArr):
+        raise Unsupported("np.append of a symbolic array")
+    if isinstance(values, SU64):
+        vdt = np.dtype(np.uint64)
+    elif isinstance(values, SInt) or (isinstance(values, int) and not isinstance(values, (bool, np.integer))):
+        vdt = np.dtype(np.int64)
+    elif isinstance(values, (np.generic, float, bool)):
+        vdt = np.asarray(values).dtype
+    else:
+        raise Unsupported(f"np.append of {type(values).__name__}")
+    rdt = np.result_type(a.dtype, vdt)
+    c.trust("np.append(1-D array, scalar): the array followed by the scalar; dtype == np.result_type(array dtype, dtype of np.asarray(scalar))")
+    n = a.shape[0]
+    src = a.frozen()
+    if rdt == a.dtype:
+        v = values
+        if isinstance(v, np.uint64):
+            v = SU64(core._u64(int(v)))
+
+        def fn(i):
+            return ite(i < n, src.elem(i), v)
+        return SArr.from_fn(fn, (n + 1,), rdt)
+    # promoted result (e.g. float64): element values are left unconstrained (an over-approximation of the
+    # rounding that promotion performs); contracts that need the integers exact fail on the dtype
+    c.note(f"np.append promoted {a.dtype} + {vdt} -> {rdt}: element values unconstrained")
+    f = c.func(c.fresh_name("promoted"), core.Z.IntSort(), core.Z.RealSort(), inp=False)
+    return SArr.from_fn(lambda i: SReal(f(core._i(i))), (n + 1,), rdt)
+
+
 @model(np.stack)
 def m_stack(interp, arrays, axis=0, **k):
     if contains_sym(arrays):
